@@ -44,7 +44,10 @@ def main():
             got.append(pid if v["verdict"] == "caught" else "%s (%s)" % (pid, v["verdict"]))
             if v.get("clause") and not clause:
                 clause = v["clause"].split("::")[0].replace("clause=", "").strip()
-        lines.append("| seeded %s | sub-agent, breaks %s | %s | %s |" % (sid, meta["breaks"], ", ".join(got) or "(not run)", clause))
+        kind = "sub-agent, breaks %s" % meta["breaks"]
+        if meta.get("written_for") and meta["written_for"] != meta["breaks"]:
+            kind += " (written for %s, see meta.json)" % meta["written_for"]
+        lines.append("| seeded %s | %s | %s | %s |" % (sid, kind, ", ".join(got) or "(not run)", clause))
     lines += ["", "Changes the first build missed, and what was strengthened (all are caught now):", "",
               "* seeded C08-A (fingerprint memoised on the shared parameter object; wrong only across a process restart): a",
               "  simulated `crash` used to discard the instance but keep module-level state. Added *hosts* = simulated",
@@ -89,6 +92,12 @@ def main():
               "  C09-r3A to exchanged M/N seeds; C16-r3A/B (an errno-style status global in the Ed25519 decoder; a one-slot",
               "  format memo with incomplete locking) to site-targeted pre-emption and to cooperative locks for the library",
               "  (it is imported with a proxy `threading` module, so a thread blocking on a lock hands the baton on).",
+              "* round 4 (`*-r4A/B`; decisive edit outside spake2.py, numeric-shape defects): all 18 were caught at once",
+              "  except C02-r4B, which C02 must not flag (an entropy read equal to q is folded to scalar 0: with scalar 0",
+              "  every correct implementation agrees despite a parameter-only difference - guard iii); it is a sampler",
+              "  defect, re-filed under C11, which reports it. The round still led to more shapes of generated groups",
+              "  (q of 7..33 bits, cofactors of 1..20 bits so that p and q cross byte boundaries independently) and to",
+              "  leading-NUL near-miss seeds/identities.",
               "* round-3 change C07-r3A (`_started` set only when start() succeeds, so a start() after a start() whose",
               "  entropy function raised returns the one and only message) was **not kept**: the statement bounds the",
               "  number of messages returned (at most one) and fixes the error only for calls after a message was",
